@@ -367,7 +367,9 @@ def _p1h(ctx):
             for (p_, q_) in ((t_.a, t_.b), (t_.b, t_.a)):
                 lp = x.loads_in(p_)
                 lq = x.loads_in(q_)
-                if lp and all(a.nid in H for a in lp) and lq and any(a.on('MultiQueue.tail_cache', 'ReaderPos.pos_data') for a in lq) and not any(a.nid in H for a in lq):
+                # (other loads on the head's side - a window read from a field - are judged below, not a reason to miss the test)
+                if lp and any(a.nid in H for a in lp) and lq and any(a.on('MultiQueue.tail_cache', 'ReaderPos.pos_data') for a in lq) and not any(a.nid in H for a in lq) \
+                        and not any(a.on('MultiQueue.tail_cache', 'ReaderPos.pos_data') for a in lp):
                     n += 1
                     subs = [s_ for s_ in g.walk(p_) if s_[0] == 'call' and re.search(r'wrapping_sub$', g.call_name(s_[1]) or '')]
                     ok = False
